@@ -1,10 +1,13 @@
 #!/bin/sh
-# Extract the model from the compiled Coq development and build the driver.
+# usage: build.sh <name>
+# Extracts coq/Extract_<name>.v (which must write "model.ml") into driver/gen/<name>/ and builds
+# driver/<name>.exe from model.ml + conv.ml + dcommon.ml + <name>.ml.
 set -e
 cd "$(dirname "$0")"
-mkdir -p gen
-( cd gen && coqc -Q ../../coq LLF ../../coq/Extract.v > extract.log 2>&1 ) || { cat gen/extract.log; exit 1; }
-cp conv.ml driver.ml gen/
-cd gen
-ocamlfind ocamlopt -O3 -w -a -package str model.mli model.ml conv.ml driver.ml -o ../driver.exe 2> build.log \
-  || ocamlfind ocamlopt -w -a model.mli model.ml conv.ml driver.ml -o ../driver.exe
+n="$1"
+mkdir -p "gen/$n"
+( cd "gen/$n" && coqc -Q ../../../coq LLF -o "$PWD/Extract_$n.vo" "../../../coq/Extract_$n.v" > extract.log 2>&1 ) || { cat "gen/$n/extract.log"; exit 1; }
+cp conv.ml dcommon.ml "$n.ml" "gen/$n/"
+cd "gen/$n"
+ocamlfind ocamlopt -O3 -w -a model.mli model.ml conv.ml dcommon.ml "$n.ml" -o "../../$n.exe" 2> build.log \
+  || ocamlfind ocamlopt -w -a model.mli model.ml conv.ml dcommon.ml "$n.ml" -o "../../$n.exe"
